@@ -3,6 +3,7 @@ package progen
 import (
 	"fmt"
 	"go/format"
+	"regexp"
 	"sort"
 	"strings"
 )
@@ -19,6 +20,8 @@ type Prog struct {
 	WithRapid bool
 	// SplitCalls > 1 spreads the call sites over that many files of package p (calls.go, calls_1.go, ...).
 	SplitCalls int
+	// RenameSplit: every further file of a split package imports the other packages under names of its own.
+	RenameSplit bool
 }
 
 // NewProg starts a program over an environment.
@@ -298,7 +301,19 @@ func (p *Prog) Files() map[string]string {
 			if i > 0 {
 				fn = fmt.Sprintf("p/calls_%d.go", i)
 			}
-			files[fn] = gofmt("package p\n\n" + p.importBlock(imps) + text)
+			block := p.importBlock(imps)
+			if p.RenameSplit && i > 0 {
+				for k := range imps {
+					if !strings.HasPrefix(k, "ext:") {
+						continue
+					}
+					al := p.Alias[k[4:]]
+					nal := fmt.Sprintf("%sr%d", al, i)
+					text = regexp.MustCompile(`\b`+regexp.QuoteMeta(al)+`\.`).ReplaceAllString(text, nal+".")
+					block = strings.Replace(block, "\t"+al+" \"", "\t"+nal+" \"", 1)
+				}
+			}
+			files[fn] = gofmt("package p\n\n" + block + text)
 		}
 	} else {
 		files["p/calls.go"] = gofmt("package p\n\n" + p.importBlock(p.callImps) + strings.Join(p.calls, "\n"))
